@@ -47,6 +47,7 @@ package parser
 // Every error is a panic with a string, raised with the cursor on a token of the spec (or at its end).
 //@ pure func isOptTok(t string) bool = t == lexer.TTOptions || t == lexer.TTShortOpt || t == lexer.TTLongOpt || t == lexer.TTOptSeq
 
+//@ pure func seqDeclared(name string, D set[string]) bool = forall j int :: {name[j:j+1]} 0 <= j && j < len(name) ==> (("-" + name[j:j+1]) in D)
 //@ func (*parser).atom
 //@   requires wf: p != nil && 0 <= p.tkpos && p.tkpos <= len(p.tokens) && (forall k int :: 0 <= k && k < len(p.tokens) ==> p.tokens[k] != nil)
 //@   requires lexed: forall k int :: {p.tokens[k]} 0 <= k && k < len(p.tokens) ==> tokShape(p.spec, p.tokens[k].Typ, p.tokens[k].Val, p.tokens[k].Pos)
@@ -63,7 +64,7 @@ package parser
 //@   ensures first-set: atomStart(typ)
 //@   ensures declared-arg: typ == lexer.TTArg ==> (name in p.argsIdx)
 //@   ensures declared-opt: (typ == lexer.TTShortOpt || typ == lexer.TTLongOpt) ==> (name in p.optionsIdx)
-//@   ensures declared-seq: typ == lexer.TTOptSeq ==> (forall j int :: 0 <= j && j < len(name) ==> (("-" + name[j:j+1]) in p.optionsIdx))
+//@   ensures declared-seq: typ == lexer.TTOptSeq ==> seqDeclared(name, domOf(p.optionsIdx))
 //@   ensures no-options-after-dd: isOptTok(typ) ==> !rej0
 //@   ensures dd-sets-flag: (rej0 || typ == lexer.TTDoubleDash) ==> p.rejectOptions
 //@   ensures closes-par: typ == lexer.TTOpenPar ==> p.tkpos >= pos0 + 2 &&
